@@ -224,6 +224,39 @@ theorem failed_untouched (cfg : Cfg) (s : Store) (now : Nat) (op : Op)
   cases op <;> simp only [Spec.step] at h ⊢ <;> (repeat' split) <;>
     first | rfl | (simp_all [Out.isErr])
 
+/-- over a backing store the model is the specification as well (rests on the regenerated order
+    "backing store before memory") -/
+theorem stepBS_eq_spec (cfg : Cfg) (rej : Bool) (s : Store) (now : Nat) (op : Op) :
+    stepBS cfg rej s now op = Spec.stepBS cfg rej s now op := by
+  unfold stepBS Spec.stepBS
+  rw [step_eq_spec]
+  simp [Gen.Store.storeBeforeMemory]
+
+/-- **A write the backing store rejects fails and leaves the state untouched**; every other call
+    behaves as without a backing store. -/
+theorem rejected_untouched (cfg : Cfg) (s : Store) (now : Nat) (op : Op) :
+    ((stepBS cfg true s now op).1 = s ∧ (stepBS cfg true s now op).2.isErr = true) ∨
+    stepBS cfg true s now op = step cfg s now op := by
+  rw [stepBS_eq_spec]
+  unfold Spec.stepBS
+  by_cases hc : (true && op.isWrite && (Spec.step cfg s now op).2.isWrite) = true
+  · left
+    rw [if_pos hc]
+    exact ⟨rfl, rfl⟩
+  · right
+    rw [if_neg hc, step_eq_spec]
+
+/-- every failed call over a backing store leaves the state untouched -/
+theorem failed_untouched_bs (cfg : Cfg) (rej : Bool) (s : Store) (now : Nat) (op : Op)
+    (h : (stepBS cfg rej s now op).2.isErr = true) : (stepBS cfg rej s now op).1 = s := by
+  rw [stepBS_eq_spec] at *
+  unfold Spec.stepBS at *
+  by_cases hc : (rej && op.isWrite && (Spec.step cfg s now op).2.isWrite) = true
+  · rw [if_pos hc]
+  · rw [if_neg hc] at h ⊢
+    have := failed_untouched cfg s now op (by rw [step_eq_spec]; exact h)
+    rw [step_eq_spec] at this; exact this
+
 /-- An operation touches no key but its own. -/
 theorem other_keys_untouched (cfg : Cfg) (s : Store) (now : Nat) (op : Op) (k : Key)
     (hk : match op with
